@@ -8,7 +8,9 @@ import sys
 import time
 import traceback
 
-from .common import CaseResult, CaseTimeout, LibCrash, Refused
+from .common import (CaseResult, CaseTimeout, LibCrash, MonitorViolation,
+                     Refused)
+from . import ir as _ir
 
 
 def _alarm(signum, frame):
@@ -30,6 +32,7 @@ def main():
             res = CaseResult(case)
             t0 = time.time()
             signal.alarm(int(case.get('timeout', default_to)))
+            _f0 = _ir.FACTORY_CHECKS[0]
             try:
                 mod.run_case(case, res)
             except CaseTimeout:
@@ -42,6 +45,8 @@ def main():
             except LibCrash as ex:
                 res.violation(f'undocumented exception from the library: {ex}',
                               tags=ex.tags)
+            except MonitorViolation as ex:
+                res.violation(str(ex))
             except Exception as ex:  # noqa: BLE001 - a bug of the harness
                 if res.status != 'violation':
                     res.status = 'harness_error'
@@ -49,6 +54,9 @@ def main():
                                   + traceback.format_exc()[-3000:])
             finally:
                 signal.alarm(0)
+            if _ir.FACTORY_CHECKS[0] > _f0:
+                res.counters['index_registry_checks'] = \
+                    _ir.FACTORY_CHECKS[0] - _f0
             res.counters['wall_s'] = round(time.time() - t0, 3)
             fo.write(json.dumps(res.to_json(), default=str) + '\n')
             fo.flush()
